@@ -181,6 +181,52 @@ pub struct Hist<'o> {
     pub closed: bool,
 }
 
+thread_local! {
+    /// atomic accesses the arena performed since the current operation of the history was started
+    pub static STEP_ACCESSES: std::cell::Cell<u64> = const { std::cell::Cell::new(0) };
+    pub static STEP_WHAT: std::cell::RefCell<String> = const { std::cell::RefCell::new(String::new()) };
+}
+
+/// One operation of a single-threaded history may perform this many atomic accesses (arenas are at most
+/// 64 KiB, i.e. at most 4096 segments; a legal traversal reads two words per segment and nobody else is
+/// there to make a CAS fail).  A logical budget, not a clock.
+pub const SEQ_STEP_BUDGET: u64 = 3_000_000;
+
+/// `before` callback of the single-threaded engine: counts the arena's atomic accesses per operation.
+/// An operation that exceeds the budget polls words that nobody can change any more: it does not terminate.
+pub fn seq_hook_before(_p: &rarena_allocator::verif_hooks::Pending) -> rarena_allocator::verif_hooks::Directive {
+    use rarena_allocator::verif_hooks::Directive;
+    if std::thread::panicking() {
+        return Directive::Proceed;
+    }
+    let n = STEP_ACCESSES.with(|c| {
+        let v = c.get() + 1;
+        c.set(v);
+        v
+    });
+    if n > SEQ_STEP_BUDGET {
+        let what = STEP_WHAT.with(|w| w.borrow().clone());
+        let mut it = what.splitn(2, '|');
+        let replay = it.next().unwrap_or("").to_string();
+        let op = it.next().unwrap_or("").to_string();
+        let prop = replay.split_whitespace().nth(2).unwrap_or("C07").to_string();
+        let d = crate::jobj!("message" => format!("a single-threaded history: the arena performed more than {} atomic accesses inside one operation ({}) — the call polls memory that nobody else can change and never returns", SEQ_STEP_BUDGET, op), "operation" => op, "replay_args" => replay);
+        use std::io::Write;
+        let o = std::io::stdout();
+        let mut l = o.lock();
+        let _ = writeln!(l, "VIOL C07 single-threaded-call-does-not-terminate {}", d.dump());
+        if prop != "C07" {
+            // no post-condition the property under check states about this call can hold if the call never returns
+            let _ = writeln!(l, "VIOL {} single-threaded-call-does-not-terminate {}", prop, d.dump());
+        }
+        let _ = writeln!(l, "CNT seq_step_budget_exceeded 1");
+        let _ = writeln!(l, "DONE");
+        let _ = l.flush();
+        std::process::exit(0);
+    }
+    Directive::Proceed
+}
+
 pub fn pattern(id: u64, gen: u32, n: usize) -> Vec<u8> {
     let mut v = Vec::with_capacity(n);
     let mut x = mix(id.wrapping_mul(0x9E37_79B9), gen as u64);
@@ -233,6 +279,9 @@ fn obs_eq(a: &Obs, b: &Obs) -> bool {
 impl<'o> Hist<'o> {
     pub fn log(&mut self, s: String) {
         self.hash = s.bytes().fold(self.hash, |h, b| mix(h, b as u64));
+        let used = STEP_ACCESSES.with(|c| c.replace(0));
+        self.out.maxv("seq_max_atomic_accesses_in_one_operation", used);
+        STEP_WHAT.with(|w| *w.borrow_mut() = format!("seq --prop {} --seed {} --only {}|step {}: {}", self.knobs.prop, self.seed, self.index, self.steps, s));
         if std::env::var_os("VH_DUMP").is_some() {
             eprintln!("[{}] {}   (cursor {} cap {})", self.steps, s, self.model.cursor, self.model.cap);
         }
@@ -389,47 +438,57 @@ impl<'o> Hist<'o> {
                 return;
             }
         }
+        // Violations found in (2) and (3) are collected and reported together: one that belongs to another
+        // property must not hide one of the property under check found later in the same pass.
+        let mut pending: Vec<(&[&str], String, String)> = vec![];
         // (2) free list structure (C10)
         if !snap0.complete {
-            self.viol(&["C10"], "freelist-incomplete", format!("bounded walk did not terminate / left the arena: {:?}", &snap0.nodes[..snap0.nodes.len().min(8)]));
-            return;
+            if !pending.iter().any(|p| p.1 == "freelist-incomplete") {
+                pending.push((&["C10"], ("freelist-incomplete").to_string(), format!("bounded walk did not terminate / left the arena: {:?}", &snap0.nodes[..snap0.nodes.len().min(8)])));
+            }
         }
         for (k, nd) in snap0.nodes.iter().enumerate() {
             let (off, ds, _) = *nd;
             let end = off as u64 + NODE as u64 + ds as u64;
             if ds == 0 {
-                self.viol(&["C10"], "freelist-removed-node-linked", format!("node at {} has size 0 (removed marker) at a quiescent point", off));
-                return;
+                if !pending.iter().any(|p| p.1 == "freelist-removed-node-linked") {
+                    pending.push((&["C10"], ("freelist-removed-node-linked").to_string(), format!("node at {} has size 0 (removed marker) at a quiescent point", off)));
+                }
             }
             if off % 8 != 0 || off < self.model.data_offset || (!self.model.rewound && end > self.model.cursor as u64) || end > self.model.cap as u64 {
-                self.viol(&["C10"], "freelist-node-out-of-place", format!("node {}+{} (end {}) misaligned or outside [data_offset={}, cursor={}) cap={}", off, ds, end, self.model.data_offset, self.model.cursor, self.model.cap));
-                return;
+                if !pending.iter().any(|p| p.1 == "freelist-node-out-of-place") {
+                    pending.push((&["C10"], ("freelist-node-out-of-place").to_string(), format!("node {}+{} (end {}) misaligned or outside [data_offset={}, cursor={}) cap={}", off, ds, end, self.model.data_offset, self.model.cursor, self.model.cap)));
+                }
             }
             for nd2 in snap0.nodes.iter().skip(k + 1) {
                 if ranges_overlap((off, NODE + ds), (nd2.0, NODE + nd2.1)) {
-                    self.viol(&["C10"], "freelist-segments-overlap", format!("segments {}+{} and {}+{} overlap", off, ds, nd2.0, nd2.1));
-                    return;
+                    if !pending.iter().any(|p| p.1 == "freelist-segments-overlap") {
+                        pending.push((&["C10"], ("freelist-segments-overlap").to_string(), format!("segments {}+{} and {}+{} overlap", off, ds, nd2.0, nd2.1)));
+                    }
                 }
             }
             for e in self.live.iter() {
                 if ranges_overlap((off, NODE + ds), (e.off, e.cap)) {
                     let msg = format!("segment {}+{} overlaps live allocation #{} [{},+{})", off, ds, e.id, e.off, e.cap);
-                    self.viol(&["C10", "C01"], "freelist-overlaps-live", msg);
-                    return;
+                    if !pending.iter().any(|p| p.1 == "freelist-overlaps-live") {
+                        pending.push((&["C10", "C01"], ("freelist-overlaps-live").to_string(), msg));
+                    }
                 }
             }
         }
         if !self.model.ordered_ok(&snap0.nodes) {
-            self.viol(&["C10"], "freelist-order", format!("{} list not ordered by size: {:?}", self.model.fl.name(), snap0.nodes.iter().map(|x| x.1).collect::<Vec<_>>()));
-            return;
+            if !pending.iter().any(|p| p.1 == "freelist-order") {
+                pending.push((&["C10"], ("freelist-order").to_string(), format!("{} list not ordered by size: {:?}", self.model.fl.name(), snap0.nodes.iter().map(|x| x.1).collect::<Vec<_>>())));
+            }
         }
         let mut a: Vec<(u32, u32)> = snap0.nodes.iter().map(|x| (x.0, x.1)).collect();
         let mut b = self.model.list.clone();
         a.sort();
         b.sort();
         if a != b {
-            self.viol(&["C10"], "freelist-content", format!("free list {:?} but the policy model expects {:?}", a, b));
-            return;
+            if !pending.iter().any(|p| p.1 == "freelist-content") {
+                pending.push((&["C10"], ("freelist-content").to_string(), format!("free list {:?} but the policy model expects {:?}", a, b)));
+            }
         }
         // (3) shadow map (C01), reserved prefix (C16)
         for i in 0..n {
@@ -442,35 +501,49 @@ impl<'o> Hist<'o> {
                 let end = e.off as u64 + e.cap as u64;
                 if e.off < self.model.data_offset || end > self.model.cursor as u64 || end > mem_len as u64 {
                     let msg = format!("#{} accessible [{},{}) not inside data area [{}, allocated={})", e.id, e.off, end, self.model.data_offset, self.model.cursor);
-                    self.viol(&["C01"], "out-of-data-area", msg);
-                    return;
+                    if !pending.iter().any(|p| p.1 == "out-of-data-area") {
+                        pending.push((&["C01"], ("out-of-data-area").to_string(), msg));
+                    }
                 }
                 for e2 in self.live.iter().skip(k + 1) {
                     if ranges_overlap((e.off, e.cap), (e2.off, e2.cap)) {
                         let msg = format!("#{} [{},+{}) overlaps #{} [{},+{})", e.id, e.off, e.cap, e2.id, e2.off, e2.cap);
-                        self.viol(&["C01"], "overlap", msg);
-                        return;
+                        if !pending.iter().any(|p| p.1 == "overlap") {
+                            pending.push((&["C01"], ("overlap").to_string(), msg));
+                        }
                     }
+                }
+                if end > mem_len as u64 {
+                    continue;
                 }
                 let m = &self.runners[i].mem()[e.off as usize..end as usize];
                 if !e.dropper && m != &e.expected[..] {
                     let pos = m.iter().zip(e.expected.iter()).position(|(x, y)| x != y).unwrap_or(0);
                     let msg = format!("#{} byte at offset {} is {:#04x}, owner last wrote {:#04x} (runner {})", e.id, e.off as usize + pos, m[pos], e.expected[pos], i);
-                    self.viol(&["C01"], "bytes-changed", msg);
-                    return;
+                    if !pending.iter().any(|p| p.1 == "bytes-changed") {
+                        pending.push((&["C01"], ("bytes-changed").to_string(), msg));
+                    }
                 }
                 for f in self.forever.iter() {
                     if ranges_overlap(*f, (e.off, e.cap)) {
                         let msg = format!("#{} [{},+{}) reuses space [{},+{}) that was discarded for good", e.id, e.off, e.cap, f.0, f.1);
-                        self.viol(&["C20"], "discarded-space-reused", msg);
-                        return;
+                        if !pending.iter().any(|p| p.1 == "discarded-space-reused") {
+                            pending.push((&["C20"], ("discarded-space-reused").to_string(), msg));
+                        }
                     }
                 }
             }
             if self.runners[i].reserved() != self.reserved_pat {
-                self.viol(&["C16"], "reserved-changed", format!("reserved prefix changed (runner {})", i));
-                return;
+                if !pending.iter().any(|p| p.1 == "reserved-changed") {
+                    pending.push((&["C16"], ("reserved-changed").to_string(), format!("reserved prefix changed (runner {})", i)));
+                }
             }
+        }
+        for (p, sig, msg) in pending {
+            self.viol(p, &sig, msg);
+        }
+        if self.failed || self.resync {
+            return;
         }
         // (4) cross-runner memory equality where stated
         for i in 1..n {
